@@ -110,12 +110,8 @@ _block_counter = [0]
 def wrapped_shape(fn, body, rets):
     """helpers whose returns sit inside try/with (but not inside one of their own loops): the body becomes an InlineBlock
     in which every `return v` is `<res> = v; InlineExit`"""
-    for r in rets:
-        p = getattr(r, "_parent", None)
-        while p is not None and p is not fn:
-            if isinstance(p, (ast.For, ast.While, ast.AsyncFor)):
-                return None
-            p = getattr(p, "_parent", None)
+    # returns inside the helper's own loops are fine: InlineExit is a jump to the end of the block, which the CFG builder and
+    # the interpreters implement directly (it is not a `break`)
     valued = any(r.value is not None for r in rets)
     res = "_ret_%s" % fn.name.strip("_")
     _block_counter[0] += 1
